@@ -247,8 +247,10 @@ def gen_client_case(r) -> Dict[str, Any]:
     outcomes = ["ok"]
     if r.random() < 0.5:
         outcomes = [r.choice(["ok", "http429", "http500", "timeout", "disconnect"]) for _ in range(r.randint(1, 6))]
-    return {"client": r.choice(["binance", "bitstamp"]), "tpp": tpp, "period": per, "init": init, "arrivals": arrivals,
-            "outcomes": outcomes}
+    client = r.choice(["binance", "binance", "bitstamp", "wait"])
+    return {"client": client, "tpp": tpp, "period": per, "init": init, "arrivals": arrivals,
+            "outcomes": outcomes if client != "wait" else ["ok"],
+            "kinds": [r.choice(["pub", "spot", "cross", "isolated"]) for _ in range(r.randint(1, 5))]}
 
 
 def run_client_case(case: Dict[str, Any], res: ShardResult) -> None:
@@ -260,13 +262,31 @@ def run_client_case(case: Dict[str, Any], res: ShardResult) -> None:
         lim = tb.TokenBucketLimiter(case["tpp"], case["period"], case["init"])
         t0 = loop.time()
         failures = [0]
-        if case["client"] == "binance":
-            from basana.external.binance.client import base as bbase
-            cli = bbase.BaseClient("k", "s", session=transport, tb=lim,
-                                   config_overrides={"api": {"http": {"base_url": "http://x/"}}})
+        nth = [0]
+        if case["client"] == "wait":
+            # the limiter's own wait(): concurrent waiters are released one token apart, like callers that sleep the
+            # time consume() returns
+            async def call():
+                await lim.wait()
+                transport.seen.append(loop.time())
+        elif case["client"] == "binance":
+            # one limiter for the whole client: public, spot, cross- and isolated-margin endpoints draw from it
+            from basana.external.binance import client as bn_client
+            cli = bn_client.APIClient("k", "s", session=transport, tb=lim,
+                                      config_overrides={"api": {"http": {"base_url": "http://x/"}}})
+            kinds = case.get("kinds") or ["pub"]
 
             async def call():
-                await cli.make_request("GET", "/api/v3/time")
+                k = kinds[nth[0] % len(kinds)]
+                nth[0] += 1
+                if k == "spot":
+                    await cli.spot_account.get_account_information()
+                elif k == "cross":
+                    await cli.cross_margin_account.get_account_information()
+                elif k == "isolated":
+                    await cli.isolated_margin_account.get_account_information()
+                else:
+                    await cli.get_exchange_info()
         else:
             from basana.external.bitstamp import client as sclient
             cli = sclient.APIClient("k", "s", session=transport, tb=lim,
@@ -289,6 +309,7 @@ def run_client_case(case: Dict[str, Any], res: ShardResult) -> None:
         seen = sorted(s - t0 for s in transport.seen)
     res.evaluations += 1
     res.count("client_requests", len(seen))
+    res.count("client_requests:" + case["client"], len(seen))
     res.count("client_requests_failed", failures[0])
     # Reference: requests are consumed in arrival order (gather creates the tasks in order, equal arrival
     # times keep FIFO order); send time = arrival + reference wait.
